@@ -28,6 +28,8 @@
                                        Message responses only
   * `attribution_sound_repaired`     — repaired source: … and that datagram ARRIVED DURING THIS REQUEST: nothing
                                        an earlier request left in the socket is ever returned
+  * `damaged_frame_is_nobodys_reply` — a frame ONE of whose checksums fails is no request's reply and carries nothing,
+                                       whatever the whole frame adds up to (two cancelling errors leave that sum at zero)
   * `attribution_strict_asShipped_counterexample`
                                      — as shipped, data is returned out of a Send Message response whose
                                        checksum fails
@@ -201,6 +203,26 @@ theorem attribution_sound_repaired (cfg : Cfg) (hc : cfg.Repaired) (st : IfState
       isReplyTo (!cfg.ignoreRqSeq) (ridOf req ((st.nextSeq + 1) % 64)) f ∧ d = replyData f := by
   have := attribution_sound_rmcp cfg st req evs d hn h
   simpa [pending, hc.2.1, hc.2.2] using this
+
+/-- A frame one of whose checksums fails is nobody's reply and carries nothing, whatever its header says and
+whatever the bytes of the frame AS A WHOLE add up to (two errors that cancel modulo 256 — header part off by +d,
+payload part off by −d — leave the sum of the whole frame at zero: verifying one checksum over the whole buffer is
+strictly weaker than verifying both, see the example with `wBothBad` below).  With `attribution_sound_rmcp` /
+`_i2c`: data of such a frame is never returned. -/
+theorem damaged_frame_is_nobodys_reply (cs : Bool) (r : ReqId) (f : Frame)
+    (h : sum8 (f.take 3) ≠ 0 ∨ sum8 (f.drop 3) ≠ 0) :
+    ¬ isReplyTo cs r f ∧ embedded true f = none ∧ ∀ g, Carries true f g → g = f := by
+  have hr : ¬ isReplyTo cs r f := fun hr => h.elim (fun h1 => h1 hr.2.1) (fun h2 => h2 hr.2.2.1)
+  have he : embedded true f = none := by
+    unfold embedded
+    rw [if_neg]
+    rintro ⟨_, _, _, hi⟩
+    have hi := hi rfl
+    exact h.elim (fun h1 => h1 hi.2.1) (fun h2 => h2 hi.2.2.1)
+  refine ⟨hr, he, fun g hc => ?_⟩
+  cases hc with
+  | self => rfl
+  | inner hem _ => rw [he] at hem; cases hem
 
 def wReq : Req := { rsSa := 0x20, netfn := 6, lun := 0, cmd := 1 }
 /-- late reply to the previous request (sequence number 0) -/
@@ -688,6 +710,25 @@ example : Unrelated true (ridOf wReq 1) none wStale ∧ Unrelated true (ridOf wR
     Unrelated true (ridOf wBridged 2) (some 2) wLateAck ∧ Unrelated true (ridOf wBridged 1) (some 1) wDamaged ∧
     isReplyTo true (ridOf wReq 1) wReply1 ∧ BareAck true (some 1) wAck ∧ ¬ BareAck true none wAck ∧
     wReq.netfn % 2 = 0 := by decide
+
+/-- the reply to request 1 with data A5h 5Ah, header checksum +10h (73h for 63h) and payload checksum −10h (CCh for
+DCh): BOTH checksums are invalid, the two errors cancel — the frame as a whole still adds up to zero -/
+def wBothBad : Frame := [0x81, 0x1c, 0x73, 0x20, 0x04, 0x01, 0x00, 0xa5, 0x5a, 0xcc]
+/-- the same with both checksums +10h: both invalid, not cancelling -/
+def wBothBadNc : Frame := [0x81, 0x1c, 0x73, 0x20, 0x04, 0x01, 0x00, 0xa5, 0x5a, 0xec]
+
+/-- a frame in both fault classes at once: the whole-frame sum of the cancelling one is zero, yet it is not a
+reply (it is `Unrelated`, the hypothesis of the progress clauses) and on every transport model the request skips
+it and returns the data of the intact reply behind it (budget 1) or an error (budget 0) — never A5h 5Ah -/
+example : sum8 wBothBad = 0 ∧ sum8 (wBothBad.take 3) ≠ 0 ∧ sum8 (wBothBad.drop 3) ≠ 0 ∧ sum8 wBothBadNc ≠ 0 ∧
+    ¬ isReplyTo true (ridOf wReq 1) wBothBad ∧ Unrelated true (ridOf wReq 1) none wBothBad ∧
+    Unrelated true (ridOf wReq 1) none wBothBadNc ∧
+    (rmcpRequest { maxRetries := 1 } ⟨0, [], []⟩ wReq [.frame wBothBad, .frame wReply1]).out = .ok (replyData wReply1) ∧
+    (rmcpRequest { maxRetries := 1 } ⟨0, [], []⟩ wReq [.frame wBothBadNc, .frame wReply1]).out = .ok (replyData wReply1) ∧
+    (rmcpRequest { maxRetries := 0 } ⟨0, [], []⟩ wReq [.frame wBothBad, .frame wReply1]).out = .retryError ∧
+    (i2cRequest I2cCfg.ipmbdev 0 wReq [.frame 2 wBothBad, .frame 2 wReply1]).out = .ok (replyData wReply1) ∧
+    (i2cRequest I2cCfg.aardvark 0 wReq [.frame 2 wBothBad, .frame 2 wReply1]).out = .ok (replyData wReply1) ∧
+    (i2cRequest I2cCfg.ipmbdev 0 wReq [.frame 2 wBothBad]).out = .timeoutError := by decide
 
 /-- HPM.1 Get Upgrade Status (2Ch/34h) NOT bridged: its reply is found (as shipped: IndexError) -/
 example : (rmcpRequest { maxRetries := 0 } ⟨0, [], []⟩ { wReq with netfn := 0x2c, cmd := 0x34 }
